@@ -25,7 +25,7 @@ type Job struct {
 	KeepTrace bool            `json:"keep_trace"`
 	Deadline  float64         `json:"deadline_s"` // wall-clock budget for this job
 	Samples   int             `json:"samples"`
-	Class     string          `json:"class,omitempty"` // minimise: the violation class to preserve
+	Class     string          `json:"class,omitempty"`  // minimise: the violation class to preserve
 	Cursor    string          `json:"cursor,omitempty"` // file receiving the index of the run in progress
 }
 
